@@ -126,6 +126,14 @@ func check(tb ev.TB, c wsim.Case) (*wsim.Result, []string) {
 			}
 		}
 	}
+	// MaxAttempts is the documented limit on how many attempts are made to deliver a message: no message travels in more
+	// produce requests than that
+	for id, ps := range seenIn {
+		if len(ps) > c.MaxAttempts {
+			fail("c01/more-attempts-than-configured", "message %v was sent in %d produce requests (%s), MaxAttempts is %d", id, len(ps), describe(ps), c.MaxAttempts)
+			return res, nil
+		}
+	}
 	// (d) duplicates only from a retry after a lost acknowledgement: once a
 	// request carrying m has been acknowledged to the client, m is never sent again
 	for id, ps := range seenIn {
